@@ -150,6 +150,9 @@ def step (st : State) (toks : List String) : State × String :=
     match C11.step x .expire with
     | some x1 => ({ s := x1 }, obs x1)
     | none => (st, obs x)
+  -- a peer asks for the tree (`handleRequestTree`): answered iff present; nothing else changes — in
+  -- particular a scheduled removal stays scheduled
+  | ["peerreq"] => (st, (if x.present then "answered " else "ignored ") ++ obs x)
   | ["localstart", tok] =>
     match tok.toNat? with
     | some tok =>
